@@ -1131,3 +1131,129 @@ func constLenOf(v ssa.Value) (int64, bool) {
 	}
 	return 0, false
 }
+
+// ---------------------------------------------------------------------------
+// C06.bufslice: a slice of a buffer of known length L is bounded by L
+
+func c06BufSlice(r *fw.Run, p *fw.Program, reach map[*ssa.Function]bool) {
+	ru := r.Rule("C06.bufslice", "in pkg/decode, a buffer obtained with a known length L (TryBytesLen(L), BytesLen(L), make([]byte, L)) is only re-sliced with an upper bound proved <= L (equal to L, min(.., L), or a dominating test)", 2)
+	for _, fn := range p.FqFunctions() {
+		if pkgRel(fn) != "pkg/decode" {
+			continue
+		}
+		var env *fw.PolyEnv
+		ord := 0
+		fw.EachInstr(fn, func(ins ssa.Instruction) {
+			sl, ok := ins.(*ssa.Slice)
+			if !ok || sl.High == nil {
+				return
+			}
+			if _, isC := sl.High.(*ssa.Const); isC {
+				return
+			}
+			L := bufLenOf(sl.X, 0)
+			if L == nil {
+				return
+			}
+			if env == nil {
+				env = fw.NewPolyEnv(fn)
+			}
+			ord++
+			key := fmt.Sprintf("%s|slice|%d", fw.ShortFn(fn), ord)
+			lp := env.Of(L)
+			hp := env.Of(sl.High)
+			okB := hp.Equal(lp) || env.Proves(sl.Block(), fw.Cmp{P: hp.Sub(lp), Rel: fw.LE})
+			if !okB {
+				// min(a, L) possibly behind integer conversions
+				if c, isCall := stripIntConv(sl.High).(*ssa.Call); isCall && fw.IsBuiltinCall(c, "min") {
+					for _, a := range c.Common().Args {
+						if env.Of(a).Equal(lp) {
+							okB = true
+						}
+					}
+				}
+				// index of a byte inside the same buffer
+				if c, isCall := stripIntConv(sl.High).(*ssa.Call); isCall {
+					if cal := c.Common().StaticCallee(); cal != nil && (cal.String() == "bytes.IndexByte" || cal.String() == "bytes.Index") && len(c.Common().Args) > 0 && c.Common().Args[0] == sl.X {
+						okB = true
+					}
+				}
+				// both the length and the bound are merges in the same block: compare edge by edge
+				lph, lIsPhi := stripIntConv(L).(*ssa.Phi)
+				hph, hIsPhi := stripIntConv(sl.High).(*ssa.Phi)
+				if !okB && lIsPhi && hIsPhi && lph.Block() == hph.Block() {
+					all := true
+					for i := range hph.Edges {
+						le := env.Of(lph.Edges[i])
+						good := env.Of(hph.Edges[i]).Equal(le)
+						if c, isCall := stripIntConv(hph.Edges[i]).(*ssa.Call); isCall && fw.IsBuiltinCall(c, "min") {
+							for _, a := range c.Common().Args {
+								if env.Of(a).Equal(le) {
+									good = true
+								}
+							}
+						}
+						if !good {
+							all = false
+						}
+					}
+					okB = all
+				}
+				// phi of such values
+				if ph, isPhi := stripIntConv(sl.High).(*ssa.Phi); isPhi && !okB {
+					all := true
+					for _, e := range ph.Edges {
+						good := env.Of(e).Equal(lp)
+						if c, isCall := stripIntConv(e).(*ssa.Call); isCall && fw.IsBuiltinCall(c, "min") {
+							for _, a := range c.Common().Args {
+								if env.Of(a).Equal(lp) {
+									good = true
+								}
+							}
+						}
+						// an edge that is the buffer's own requested length (e.g. lenBytes when the buffer was read with lenBytes)
+						if !good {
+							all = false
+						}
+					}
+					okB = all
+				}
+			}
+			ru.Check(okB, key, p.Rel(sl.Pos()), "upper bound "+hp.String()+" <= buffer length "+lp.String(),
+				"buffer of length "+lp.String()+" is sliced up to "+hp.String()+" which is not proved <= that length (slice bounds out of range on crafted input)")
+		})
+	}
+}
+
+func stripIntConv(v ssa.Value) ssa.Value {
+	for {
+		c, ok := v.(*ssa.Convert)
+		if !ok || !isIntT(c.Type()) || !isIntT(c.X.Type()) {
+			return v
+		}
+		v = c.X
+	}
+}
+
+// bufLenOf: the length expression a buffer value was created with.
+func bufLenOf(v ssa.Value, depth int) ssa.Value {
+	if depth > 4 {
+		return nil
+	}
+	switch x := v.(type) {
+	case *ssa.MakeSlice:
+		return x.Len
+	case *ssa.Extract:
+		if c, ok := x.Tuple.(*ssa.Call); ok && x.Index == 0 {
+			return bufLenOf(c, depth+1)
+		}
+	case *ssa.Call:
+		if cal := x.Common().StaticCallee(); cal != nil && cal.Signature.Recv() != nil && isDecodeD(cal.Signature.Recv().Type()) {
+			switch cal.Name() {
+			case "TryBytesLen", "BytesLen":
+				return x.Common().Args[1]
+			}
+		}
+	}
+	return nil
+}
